@@ -382,6 +382,16 @@ Definition wf_attr (a : attr) : Prop :=
 
 Definition wf_attrs (l : list attr) : Prop := Forall wf_attr l /\ NoDup (map a_name l).
 
+(* the attribute set fits the header block together with its 4-byte terminator *)
+Definition fits (attrs : list attr) : Prop :=
+  exists packed, pack_attr_list attrs = Ok packed /\ HDR + len packed + 4 <= BLOCK.
+
+(* a stored header block that Envelope.__init__ opens to [attrs] *)
+Definition header_opens (hdr : list Z) (attrs : list attr) : Prop :=
+  len hdr = BLOCK /\ takez hdr (len MAGIC) = MAGIC /\
+  get_uint false hdr_layout hdr "version" = Some Gen.EnvelopeTables.envelope_header_version /\
+  read_attributes (dropz hdr HDR) = Ok attrs.
+
 (* ------------------------------------------------------------------ the writer (specification side) *)
 Definition CF_MAGIC := Gen.Consts.envelope_FOOTER_CRYPTO_MAGIC.
 Definition AEAD_MAGIC := Gen.Consts.envelope_FOOTER_AEAD_MAGIC.
@@ -397,6 +407,13 @@ Definition aead_footer (tag : list Z) : list Z :=
   AEAD_MAGIC ++ repz 0 (field_off aead_layout "data" - len AEAD_MAGIC) ++ tag
   ++ repz 0 (field_off aead_layout "size" - field_off aead_layout "data" - len tag)
   ++ le_bytes 4 (len tag) ++ le_bytes 4 Gen.EnvelopeTables.envelope_aead_footer_version.
+
+(* the attributes a writer stores for (key, iv): key info, cipher name, key hash, IV *)
+Definition sealed_attrs (sha : list Z -> list Z) (attrs : list attr) (key iv : list Z) : Prop :=
+  (exists a, dict_get attrs N_keyInfo = Some a) /\
+  (exists a, dict_get attrs N_cipherName = Some a /\ a_val a = VStr CIPHER) /\
+  (exists a, dict_get attrs N_keyHash = Some a /\ a_val a = VBytes (sha (CIPHER ++ key))) /\
+  (exists a, dict_get attrs N_iv = Some a /\ a_val a = VBytes iv).
 
 Section Seal.
   Variable gcm_enc : list Z -> list Z -> list Z -> list Z.            (* key iv plaintext -> ciphertext *)
